@@ -7,7 +7,7 @@ OPS = '{"Start","Begin","Step","Results","KeepAlive","Stop","End","Metrics"}'
 
 def consts(insts, stop, kv='{0,3}', sv='{0}'):
     return dict(Inst=insts, Timeouts='{9}', Ticks='{}', KVals=kv, StepVals=sv, Stop=str(stop), MaxNow='0',
-                Scen='{"base","high"}', Ops=OPS, Adapter="FALSE", Dev='{}')
+                Scen='{"base","high"}', Ops=OPS, Adapter="FALSE", Compress='FALSE', Dev='{}')
 
 
 def solo(hist, i):
@@ -60,7 +60,7 @@ def run(tier, replay_file=None):
             if len(R.violations) >= 20:
                 break
     R.cov["responses_compared_with_solo"] = compared
-    if compared < 200:
+    if not R.violations and (compared < 200):
         raise common.Machinery("too few responses compared (vacuous)")
     R.sample([{a: b for a, b in h.items() if a not in ("rows", "want", "row")} for h in sets[0][0][0]])
     # negative control: responses of one instance swapped into another's solo comparison must differ
